@@ -44,6 +44,10 @@ pub enum TOp {
     IterInto { u: usize },
     /// the whole `Path` API on the result of a path / cycle search
     PathInfo { root: usize, spec: crate::model::SearchSpec },
+    /// a loop over a node's edges (dir 0 out, 1 in, 2 `for e in &node`) or a traversal with a
+    /// closure, whose body executes the given operations at the given steps: both flavours must
+    /// yield the same edges and return the same results
+    Loop { u: usize, dir: u8, spec: Option<crate::model::SearchSpec>, plan: Vec<(usize, Op)> },
     /// replace the container by `Graph::default()` / `with_capacity` holding the same members
     Recreate { capacity: Option<usize> },
 }
@@ -75,9 +79,10 @@ fn sorted_keys<F: Flavour>(v: &[F::Node]) -> Obs {
 }
 
 fn canon_doc(bytes: &[u8], wire: Wire) -> Obs {
-    let d: Result<PlainDoc, String> = match wire {
-        Wire::Json => serde_json::from_slice(bytes).map_err(|e| e.to_string()),
-        Wire::Cbor => serde_cbor::from_slice(bytes).map_err(|e| e.to_string()),
+    let d: Result<PlainDoc, String> = if wire.is_cbor() {
+        serde_cbor::from_slice(bytes).map_err(|e| e.to_string())
+    } else {
+        serde_json::from_slice(bytes).map_err(|e| e.to_string())
     };
     match d {
         Ok((mut nodes, mut edges)) => {
@@ -239,6 +244,46 @@ fn exec<F: Flavour>(w: &mut World<F>, op: &TOp) -> Obs {
             w.graph = Some(g);
             Obs::Keys(keys)
         }
+        TOp::Loop { u, dir, spec, plan } => {
+            let step = std::cell::Cell::new(0usize);
+            let yields = std::cell::RefCell::new(Vec::new());
+            let results = std::cell::RefCell::new(Vec::new());
+            let wr: &World<F> = w;
+            let body = |a: usize, b: usize, e: u64| -> bool {
+                let i = step.get();
+                step.set(i + 1);
+                yields.borrow_mut().push((a, b, e));
+                for (at, op) in plan {
+                    if *at == i {
+                        results.borrow_mut().push(canon_obs(wr.exec(op)));
+                    }
+                }
+                i < 400
+            };
+            let ret = match spec {
+                None => {
+                    let node = &wr.nodes[*u];
+                    let mut f = |a: F::Node, b: F::Node, e: crate::payload::EVal| body(F::key(&a), F::key(&b), e.0);
+                    match dir % 3 {
+                        0 => F::for_out(node, &mut f),
+                        1 => F::for_in(node, &mut f),
+                        _ => F::for_into(node, &mut f),
+                    }
+                    Obs::Unit
+                }
+                Some(spec) => {
+                    let mask = spec.mask;
+                    let out = F::search(&wr.nodes[*u], spec, &mut |a, b, e| {
+                        if !body(F::key(a), F::key(b), e.0) {
+                            std::panic::resume_unwind(Box::new(crate::locks::SimAbort("cut".into())));
+                        }
+                        mask & (1 << (e.0 % 16)) == 0
+                    });
+                    crate::world::search_out_obs::<F>(out)
+                }
+            };
+            Obs::Text(format!("yields={:?} results={:?} ret={ret:?}", yields.borrow(), results.borrow()))
+        }
         TOp::IterInto { u } => {
             let mut v = Vec::new();
             F::for_into(&w.nodes[*u], &mut |a, b, e| {
@@ -307,7 +352,7 @@ impl Engine for Twin {
         let mut ops = Vec::new();
         for _ in 0..nops {
             let k = if rng.chance(1, 15) { gen::NO_SUCH_KEY } else { rng.below(n) };
-            let wire = if rng.coin() { Wire::Json } else { Wire::Cbor };
+            let wire = *rng.pick(&[Wire::Json, Wire::Cbor, Wire::Cbor, Wire::JsonValue, Wire::JsonStr]);
             let op = match rng.below(100) {
                 0..=54 => {
                     let mut op = gen::gen_op(rng, &m, &mut next_edge, &cfg);
@@ -348,6 +393,34 @@ impl Engine for Twin {
                     } else {
                         TOp::Recreate { capacity: if rng.coin() { Some(rng.below(64)) } else { None } }
                     }
+                }
+                97 if rng.chance(2, 3) => {
+                    // a loop whose body mutates
+                    let mut plan = Vec::new();
+                    for _ in 0..rng.range(1, 4) {
+                        let mut op = gen::gen_op(rng, &m, &mut next_edge, &cfg);
+                        if let Op::Search { spec, .. } = &mut op {
+                            if !spec.valid(directed) {
+                                spec.transpose = false;
+                            }
+                        }
+                        // (the generator's shadow state is not advanced: what the body does depends
+                        // on how far the loop gets; both flavours get the same plan)
+                        plan.push((rng.below(4), op));
+                    }
+                    let spec = if rng.coin() {
+                        let mut sp = gen::gen_search_spec(rng, &m, true);
+                        if sp.closure == crate::model::Closure::None {
+                            sp.closure = crate::model::Closure::ForEach;
+                        }
+                        if !sp.valid(directed) {
+                            sp.transpose = false;
+                        }
+                        Some(sp)
+                    } else {
+                        None
+                    };
+                    TOp::Loop { u: rng.below(n), dir: rng.below(3) as u8, spec, plan }
                 }
                 97 => {
                     if rng.coin() {
@@ -452,6 +525,9 @@ impl Engine for Twin {
                     TOp::EdgeEq { u, v, .. } | TOp::EdgeCmp { u, v, .. } | TOp::NodeCmp { u, v } => *u == k || *v == k,
                     TOp::EdgeReverse { u, .. } | TOp::IterInto { u } => *u == k,
                     TOp::PathInfo { root, spec } => *root == k || spec.target == Some(k),
+                    TOp::Loop { u, spec, plan, .. } => {
+                        *u == k || spec.as_ref().map(|s| s.target == Some(k)).unwrap_or(false) || plan.iter().any(|(_, op)| gen::remap_op(op, k).is_none())
+                    }
                     _ => false,
                 });
             if !used {
